@@ -64,48 +64,13 @@ theorem span_all (ber : Bytes) : ∀ f : Nat,
           | true => simp at he; omega
           | false => simp at he; have := this.2 rfl h2; omega
     · intro off ce ind d os e h
-      rw [readItems] at h
-      split at h
-      next hn =>
-        injection h with h; injection h with h1 h2; subst h1; subst h2
+      rcases readItems_ok_cases h with ⟨hos, he, _, _⟩ | ⟨o, e1, os1, ho, hi, hos, hF, _⟩
+      · subst hos; subst he
         exact ⟨by simp [nodesItems], fun _ h => h⟩
-      next hn =>
-        cases ho : readObject f ber off d with
-        | error e => rw [ho] at h; simp at h
-        | ok r =>
-          obtain ⟨o, e1⟩ := r
-          rw [ho] at h
-          have hO := ihO _ _ _ _ ho
-          dsimp only at h
-          cases ind with
-          | true =>
-            simp only [if_true] at h
-            split at h
-            · simp at h
-            · split at h
-              · injection h with h; injection h with h1 h2; subst h1; subst h2
-                refine ⟨by simp only [nodesItems]; omega, fun h => by simp at h⟩
-              · cases hi : readItems f ber e1 ce true d with
-                | error e => rw [hi] at h; simp at h
-                | ok r =>
-                  obtain ⟨os1, e2⟩ := r
-                  rw [hi] at h
-                  injection h with h; injection h with h1 h2; subst h1; subst h2
-                  have hI := (ihI _ _ _ _ _ _ hi).1
-                  refine ⟨by simp only [nodesItems]; omega, fun h => by simp at h⟩
-          | false =>
-            simp only [Bool.false_eq_true, if_false] at h
-            split at h
-            · simp at h
-            · rename_i hle
-              cases hi : readItems f ber e1 ce false d with
-              | error e => rw [hi] at h; simp at h
-              | ok r =>
-                obtain ⟨os1, e2⟩ := r
-                rw [hi] at h
-                injection h with h; injection h with h1 h2; subst h1; subst h2
-                have hI := ihI _ _ _ _ _ _ hi
-                refine ⟨by simp only [nodesItems]; omega, fun _ _ => hI.2 rfl (by omega)⟩
+      · subst hos
+        have hO := ihO _ _ _ _ ho
+        have hI := ihI _ _ _ _ _ _ hi
+        refine ⟨by simp only [nodesItems]; omega, fun hind _ => hI.2 hind (hF hind).2⟩
 
 /-- **Linear size**: an object that `readObjectDepth` returns for the bytes `[off, off')` has at most
     `(off' - off) / 2` nodes.  So the number of successful `readObjectDepth` calls, the size of the tree held in
